@@ -221,7 +221,7 @@ theorem pvClause_ok3 {sop ops} (h : (sop, ops) ∈ pvOps) (a b c : Nat) : PyVCok
   · exact ok_lo _ true hb
 
 /-- the truth of `python_full_version op "a.b.c"` on an environment of interpreter `X.Y.Z` -/
-theorem pfv3_eval {E : Env} {X Y Z : Nat} (hE : E.get? "python_full_version" = some (Version.relText [X, Y, Z]))
+theorem pfv3Single_eval {E : Env} {X Y Z : Nat} (hE : E.get? "python_full_version" = some (Version.relText [X, Y, Z]))
     {sop ops} (h : (sop, ops) ∈ pvOps) (a b c : Nat) :
     (Leaf.single (pfv3Single sop ops a b c)).validate E =
       .ok ((pvClause sop (litV a [b, c])).allowsPlain (pyV X Y Z)) := by
@@ -242,7 +242,7 @@ theorem pv_pfv_same {E : Env} {X Y Z : Nat} (hE : EnvPy E X Y Z) {sop ops} (h : 
     (hlg : ops = "<" ∨ ops = ">=") (a b : Nat) :
     leafEval E (.single (pvLeafOf sop ops a b)) = leafEval E (.single (pfv3Single sop ops a b 0)) := by
   have e1 := pvLeaf_eval hE.1 h a b
-  have e2 := pfv3_eval hE.2 h a b 0
+  have e2 := pfv3Single_eval hE.2 h a b 0
   simp only [leafEval, e1, e2]
   rw [← allowsPlain_pad (pvClause_ok h a b)]
   simp only [pvOps, List.mem_cons, List.mem_nil_iff, or_false, Prod.mk.injEq] at h
